@@ -5,9 +5,9 @@ package main
 import (
 	"fmt"
 	"go/token"
+	"go/types"
 	"sort"
 	"strings"
-	"go/types"
 
 	"golang.org/x/tools/go/ssa"
 )
